@@ -343,11 +343,14 @@ Qed.
 
 (* ------------------------------------------------------------------ deferred lost segment procedure *)
 (* the procedure is entered once with the flag set and the timer not yet created (start_deferred_...): then lost
-   segments or the metadata are outstanding, so the timer is created before anything can raise *)
+   segments or the metadata are outstanding, so the timer is created before anything can raise; and the transaction is
+   not cancelled then (fsm_advancement starts the procedure only for a transaction that is not cancelled), so the
+   early return of a cancelled transaction (F35 repair) is never taken without the timer *)
 Definition dls_pre (s : dst) : Prop :=
   dest_wf (s <| d_p ::= (fun p => p <| p_proc_timer := Some (0, 0) |>) |>) /\
   (p_deferred (d_p s) = true -> p_proc_timer (d_p s) = None ->
-   ((zlen (p_tracker (d_p s)) =? 0) && negb (p_md_missing (d_p s))) = false).
+   ((zlen (p_tracker (d_p s)) =? 0) && negb (p_md_missing (d_p s))) = false /\
+   (p_disp (d_p s) =? DISP_CANCELED) = false).
 
 Lemma wf_dls_pre : forall s, dest_wf s -> dls_pre s.
 Proof. intros s W. unfold dls_pre. split; [dsolve | intros; exfalso; dsolve]. Qed.
@@ -356,10 +359,15 @@ Lemma deferred_ok : forall s, dls_pre s -> postx (fun _ s' => dest_wf s') E0 (de
 Proof.
   intros s [W T]. unfold deferred_lost_segment_handling, rcfg_or_assert. mrun.
   destruct (p_deferred (d_p s)) eqn:Hd; cbn [negb]; [|mfin; dsolve].
+  mrun. destruct (p_disp (d_p s) =? DISP_CANCELED) eqn:Hk.
+  { (* F35 repair: a cancelled transaction is left as it is; the timer exists (dls_pre) *)
+    destruct (p_proc_timer (d_p s)) as [tm|] eqn:Ht;
+      [|destruct (T eq_refl eq_refl) as [_ T2]; discriminate T2].
+    mfin. dsolve. }
   mrun. destruct (p_rcfg (d_p s)) as [r|] eqn:Hr; [|exfalso; dsolve]. mrun.
   destruct (p_file_size_eof (d_p s)) as [eos|] eqn:He; [|exfalso; dsolve]. mrun.
   destruct ((zlen (p_tracker (d_p s)) =? 0) && negb (p_md_missing (d_p s))) eqn:Hc.
-  - destruct (p_proc_timer (d_p s)) as [tm|] eqn:Ht; [|specialize (T eq_refl eq_refl); discriminate T].
+  - destruct (p_proc_timer (d_p s)) as [tm|] eqn:Ht; [|destruct (T eq_refl eq_refl) as [T1 _]; discriminate T1].
     dcall checksum_verify_ok; [dsolve | dsolve | intros e s' H; dsolve |].
     intros ok s' H. dauto.
   - mrun. destruct (p_proc_timer (d_p s)) as [tm|] eqn:Ht; mrun.
@@ -415,12 +423,13 @@ Qed.
 
 Lemma start_deferred_ok : forall s, dest_wf s -> d_state s <> ST_IDLE -> p_file_size_eof (d_p s) <> None ->
   ((0 <? zlen (p_tracker (d_p s))) || p_md_missing (d_p s)) = true ->
+  (p_disp (d_p s) =? DISP_CANCELED) = false ->
   postx (fun _ s' => dest_wf s') E0 (start_deferred_lost_segment_handling s).
 Proof.
-  intros s W N F G. unfold start_deferred_lost_segment_handling. mrun.
+  intros s W N F G K. unfold start_deferred_lost_segment_handling. mrun.
   apply deferred_ok. split.
   - destruct (p_md_missing (d_p s)); dsolve.
-  - intros _ _. cbn. destruct (p_md_missing (d_p s)); [apply andb_false_r|].
+  - intros _ _. cbn. split; [|exact K]. destruct (p_md_missing (d_p s)); [apply andb_false_r|].
     rewrite orb_false_r in G. rewrite (coalesce_len _ G). reflexivity.
 Qed.
 
@@ -562,8 +571,8 @@ Proof.
   destruct (0 <? zlen (d_queue s)); [mfin; dsolve|].
   destruct (d_step s =? DS_SENDING_EOF_ACK) eqn:Es; [|mfin; dsolve].
   destruct (negb (p_disp (d_p s) =? DISP_CANCELED) && _) eqn:Ec.
-  - apply andb_true_iff in Ec. destruct Ec as [_ Ec].
-    apply start_deferred_ok; [exact W | exact N | dsolve | exact Ec].
+  - apply andb_true_iff in Ec. destruct Ec as [Ek Ec]. apply negb_true_iff in Ek.
+    apply start_deferred_ok; [exact W | exact N | dsolve | exact Ec | exact Ek].
   - destruct (negb (p_disp (d_p s) =? DISP_CANCELED)); mrun.
     + dcall checksum_verify_ok; [exact W | exact N | intros e s' H; dsolve |].
       intros ok s' H. mrun. mfin. dsolve.
